@@ -209,6 +209,29 @@ func init() {
 	add("C20", ruleR09_2)
 	// F26: a duplicated or delayed subscribe response must not reset a subscribed replica
 	add("C07", ruleR13_3)
+	// round 4 (DESIGN.md section 14): cross-listings
+	add("C01", ruleR05_2, ruleR14_4)
+	add("C02", ruleR15_5, ruleR14_4, ruleR02_6)
+	add("C03", ruleR19_2)
+	add("C04", ruleR05_2, ruleR09_2, ruleR14_4)
+	add("C05", ruleR12_4, ruleR14_4, ruleR03_4, ruleR08_5)
+	add("C06", ruleR09_3, ruleR08_5)
+	add("C07", ruleR12_3, ruleR08_5)
+	add("C08", ruleR08_5)
+	add("C09", ruleR05_5, ruleR09_7, ruleR09_8)
+	add("C10", ruleR15_4, ruleR10_6)
+	add("C12", ruleR12_9, ruleR12_10)
+	add("C13", ruleR12_3, ruleR05_1, ruleR08_5)
+	add("C14", ruleR04_6, ruleR09_4, ruleR10_6)
+	add("C15", ruleR09_2, ruleR09_8)
+	add("C16", ruleR08_5, ruleR12_9)
+	add("C17", ruleR17_9, ruleR17_10)
+	add("C19", ruleR15_4)
+	add("C20", ruleR03_4, ruleR09_8)
+	add("C01", ruleR02_6)
+	add("C06", ruleR06_5)
+	add("C11", ruleR06_5, ruleR09_4)
+	add("C18", ruleR13_3)
 	for _, id := range []string{"C04", "C13"} {
 		registry[id].NeedsServer = registry[id].NeedsServer || id == "C13"
 	}
